@@ -383,6 +383,41 @@ def validator_guards(ctx, prog, rid):
              ('f32::to_bits at %s is applied to %s, not to a lane of the payload as it is' % (raw[0][0].loc, raw[0][1][:100])) if raw else
              ('the lane read at %s does not reach a mixing call' % unmixed[0].loc) if unmixed else
              '%d lane reads (f32::to_bits of payload lanes), each reaches its mixing call through widening / << 32 / | only' % len(lanes))
+    # Order of the chunks (seeded C05 round 6): a running hash that only ADDS / XORS a per-chunk term (a term that does not depend on the running value) is a commutative
+    # sum — two payloads whose 4-lane chunks are permutations of each other get the same digest, and since versions restart at 1 after delete + reinsert the digest is
+    # all that tells two epochs apart. Necessary for order sensitivity: inside the chunk loop every running hash is itself rotated or multiplied (an operation that
+    # does not commute with the accumulation). What the mixing achieves beyond that (avalanche, collision resistance) stays undecided.
+    heads = [c for c in dg.calls if c.callee and c.is_('re:Iterator>::next$') and c.bb in dg.reach(dg.succ(c.bb))]
+    if not heads:
+        ctx.missing(rid, 'digest_embedding: the loop over the 4-lane chunks')
+    else:
+        h_ = heads[0].bb
+        loop = set(b_ for b_ in dg.reach([h_]) if h_ in dg.reach(dg.succ(b_))) | {h_}
+        dv = flow.Origin(dg, stop_at_vars=True)
+        accs = {}
+        for l_, names in dg.varnames.items():
+            if names and dg.locals[l_] == 'u64':
+                dbs = set(d[0] for d in dg.defs.get(l_, []))
+                if dbs & loop and dbs - loop:
+                    accs[names[0]] = l_
+        stirred = set()
+        for c in dg.calls:
+            if c.bb in loop and c.callee and re.search(r'::(rotate_left|rotate_right|wrapping_mul)$', c.callee) and c.args:
+                for nm in accs:
+                    if re.search(r'\bvar:%s\b' % re.escape(nm), flow.render(dv.of_operand(c.args[0]))):
+                        stirred.add(nm)
+        for i_ in loop:
+            for st in dg.blocks[i_]['s']:
+                rv = st.get('rv')
+                if rv and rv['k'] == 'bin' and rv.get('op') in ('Mul', 'MulWithOverflow', 'MulUnchecked', 'Shl', 'Shr'):
+                    for nm in accs:
+                        if re.search(r'\bvar:%s\b' % re.escape(nm), flow.render(dv.of_operand(rv['a']))):
+                            stirred.add(nm)
+        flat = sorted(set(accs) - stirred)
+        ctx.inst(rid, dg.short, 'the digest depends on the order of the chunks: each running hash is rotated / multiplied inside the chunk loop', bool(accs) and not flat,
+                 ('running hash `%s` is only combined with per-chunk terms inside the loop (no rotation / multiplication of the running value): chunk-permuted payloads collide, '
+                  'a stale copy from before a delete + reinsert passes embedding_matches_token' % flat[0]) if flat else
+                 ('no running hash found' if not accs else 'running hashes %s are each rotated / multiplied in the loop' % sorted(accs)))
 
 
 
